@@ -23,6 +23,13 @@ theorem take_setZeros (b : Bytes) (lo hi : Nat) (h : lo ≤ b.length) (hlh : lo 
   have hl : (b.take lo ++ zeros (hi - lo)).length = hi := by simp; omega
   rw [List.take_append_of_le_length (by omega), List.take_of_length_le (by omega)]
 
+/-- the first `hi` bytes after `setFill b lo hi x` -/
+theorem take_setFill (b : Bytes) (lo hi : Nat) (x : UInt8) (h : lo ≤ b.length) (hlh : lo ≤ hi) :
+    (setFill b lo hi x).take hi = b.take lo ++ List.replicate (hi - lo) x := by
+  unfold setFill
+  have hl : (b.take lo ++ List.replicate (hi - lo) x).length = hi := by simp; omega
+  rw [List.take_append_of_le_length (by omega), List.take_of_length_le (by omega)]
+
 /-! ### `Vec::clone` -/
 
 theorem empty_data : PVec.empty.data = [] := rfl
@@ -43,43 +50,45 @@ theorem vecClone_data (c : Cfg) (m : Mach) (v : PVec) (h : v.len ≤ v.buf.lengt
     rw [List.take_take, Nat.min_self, List.take_append_of_le_length (by omega),
       List.take_of_length_le (by omega)]
 
-/-! ### `Vec::resize(n, 0)` -/
+/-! ### `Vec::resize(n, b)` -/
 
-theorem vecResize_len (c : Cfg) (m : Mach) (v : PVec) (n : Nat) : (vecResize c m v n).2.len = n := by
+theorem vecResize_len (c : Cfg) (m : Mach) (v : PVec) (n : Nat) (b : UInt8 := 0) :
+    (vecResize c m v n b).2.len = n := by
   unfold vecResize; split
   · rfl
   · split <;> rfl
 
 /-- well-formedness (`len ≤ cap = buf.length`) is kept by `resize` -/
 theorem vecResize_wf (c : Cfg) (m : Mach) (v : PVec) (n : Nat) (hl : v.len ≤ v.cap)
-    (hb : v.buf.length = v.cap) :
-    (vecResize c m v n).2.len ≤ (vecResize c m v n).2.cap ∧
-    (vecResize c m v n).2.buf.length = (vecResize c m v n).2.cap := by
+    (hb : v.buf.length = v.cap) (b : UInt8 := 0) :
+    (vecResize c m v n b).2.len ≤ (vecResize c m v n b).2.cap ∧
+    (vecResize c m v n b).2.buf.length = (vecResize c m v n b).2.cap := by
   unfold vecResize
   split
   · exact ⟨by simp only []; omega, hb⟩
   split
   · refine ⟨by simpa, ?_⟩
     simp only []
-    rw [setZeros_length _ _ _ (by omega) (by omega)]; exact hb
+    rw [setFill_length _ _ _ _ (by omega) (by omega)]; exact hb
   · have hg := growCap_ge v.cap n
     refine ⟨hg.1, ?_⟩
     simp only []
-    rw [setZeros_length _ _ _ (by omega) (by simp; omega)]; simp
+    rw [setFill_length _ _ _ _ (by omega) (by simp; omega)]; simp
 
-/-- **prefix law of `resize`**: the first `min old new` bytes are kept, the new bytes are zero -/
-theorem vecResize_data (c : Cfg) (m : Mach) (v : PVec) (n : Nat) (hl : v.len ≤ v.cap)
+/-- **prefix law of `resize`, general fill byte**: the first `min old new` bytes are kept, the new bytes are `b` —
+whether the vector shrinks, grows in place or reallocates -/
+theorem vecResize_data_fill (c : Cfg) (m : Mach) (v : PVec) (n : Nat) (b : UInt8) (hl : v.len ≤ v.cap)
     (hb : v.buf.length = v.cap) :
-    (vecResize c m v n).2.data = v.data.take n ++ zeros (n - v.len) := by
+    (vecResize c m v n b).2.data = v.data.take n ++ List.replicate (n - v.len) b := by
   unfold vecResize
   split
   · rename_i h1
     simp only [PVec.data]
-    rw [List.take_take, Nat.min_eq_left h1, Nat.sub_eq_zero_of_le h1, zeros_zero, List.append_nil]
+    rw [List.take_take, Nat.min_eq_left h1, Nat.sub_eq_zero_of_le h1, List.replicate_zero, List.append_nil]
   split
   · rename_i h1 h2
     simp only [PVec.data]
-    rw [take_setZeros _ _ _ (by omega) (by omega), List.take_take, Nat.min_eq_right (by omega)]
+    rw [take_setFill _ _ _ _ (by omega) (by omega), List.take_take, Nat.min_eq_right (by omega)]
   · rename_i h1 h2
     have hg := growCap_ge v.cap n
     have e1 : ((v.buf ++ zeros (growCap v.cap n)).take (growCap v.cap n)).take v.len = v.buf.take v.len := by
@@ -87,7 +96,13 @@ theorem vecResize_data (c : Cfg) (m : Mach) (v : PVec) (n : Nat) (hl : v.len ≤
     have e2 : (v.buf.take v.len).take n = v.buf.take v.len := by
       rw [List.take_take, Nat.min_eq_right (by omega)]
     simp only [PVec.data]
-    rw [take_setZeros _ _ _ (by simp; omega) (by omega), e1, e2]
+    rw [take_setFill _ _ _ _ (by simp; omega) (by omega), e1, e2]
+
+/-- **prefix law of `resize`** (fill byte 0): the first `min old new` bytes are kept, the new bytes are zero -/
+theorem vecResize_data (c : Cfg) (m : Mach) (v : PVec) (n : Nat) (hl : v.len ≤ v.cap)
+    (hb : v.buf.length = v.cap) :
+    (vecResize c m v n).2.data = v.data.take n ++ zeros (n - v.len) :=
+  vecResize_data_fill c m v n 0 hl hb
 
 /-! ### `writeV` -/
 
@@ -100,23 +115,23 @@ theorem writeV_data (v : PVec) (src : Bytes) (h1 : src.length ≤ v.len) (h2 : v
 
 /-! ### `ResizableBytes::resize` of a locked region -/
 
-theorem lockedResize_some {c : Cfg} {m : Mach} {v : PVec} {n : Nat} {nv : PVec}
-    (hl : v.len ≤ v.buf.length) (h : (lockedResize c m v n).2 = some nv) :
-    nv.len = n ∧ nv.len ≤ nv.buf.length ∧ nv.data = v.data.take n ++ zeros (n - v.len) := by
-  have hwf := vecResize_wf c m PVec.empty n (by simp) (by simp)
-  have hlen := vecResize_len c m PVec.empty n
-  have hdat := vecResize_data c m PVec.empty n (by simp) (by simp)
+theorem lockedResize_some {c : Cfg} {m : Mach} {v : PVec} {rc : LM × PM} {n : Nat} {b : UInt8} {nv : PVec}
+    (hl : v.len ≤ v.buf.length) (h : (lockedResize c m v rc n b).2 = some nv) :
+    nv.len = n ∧ nv.len ≤ nv.buf.length ∧ nv.data = v.data.take n ++ List.replicate (n - v.len) b := by
+  have hwf := vecResize_wf c m PVec.empty n (by simp) (by simp) b
+  have hlen := vecResize_len c m PVec.empty n b
+  have hdat := vecResize_data_fill c m PVec.empty n b (by simp) (by simp)
   rw [empty_data, empty_len, List.take_nil, List.nil_append, Nat.sub_zero] at hdat
   unfold lockedResize at h
   simp only [] at h
-  by_cases hr : (lockV c (vecResize c m PVec.empty n).1 (vecResize c m PVec.empty n).2 .rw).2 = true
+  by_cases hr : (lockV c (vecResize c m PVec.empty n b).1 (vecResize c m PVec.empty n b).2 recNew).2 = true
   · simp only [hr, if_true, Option.some.injEq] at h
     subst h
-    have hsl : (v.data.take n).length ≤ (vecResize c m PVec.empty n).2.len := by
+    have hsl : (v.data.take n).length ≤ (vecResize c m PVec.empty n b).2.len := by
       rw [hlen]; simp; omega
     refine ⟨hlen, ?_, ?_⟩
     · rw [writeV_len, writeV_buf_length]; omega
-    · rw [writeV_data _ _ hsl (by omega), hdat, zeros_drop]
+    · rw [writeV_data _ _ hsl (by omega), hdat, List.drop_replicate]
       congr 2
       rw [List.length_take, data_length hl]; omega
   · simp [hr] at h
@@ -125,8 +140,8 @@ theorem lockedResize_some {c : Cfg} {m : Mach} {v : PVec} {n : Nat} {nv : PVec}
 
 theorem step_clone (c : Cfg) (s : State) (i : Nat) :
     step c s ⟨.clone, i⟩ = opClone c (resetRel s) i := rfl
-theorem step_resize (c : Cfg) (s : State) (i n : Nat) :
-    step c s ⟨.resize n, i⟩ = opResize c (resetRel s) i n := rfl
+theorem step_resize (c : Cfg) (s : State) (i n : Nat) (b : UInt8 := 0) :
+    step c s ⟨.resize n b, i⟩ = opResize c (resetRel s) i n b := rfl
 
 theorem doCloneLocked_ok {c : Cfg} {s : State} {sl : Slot} {ro : Bool}
     (hl : sl.o.v.len ≤ sl.o.v.buf.length) (h : (doCloneLocked c s sl ro).1 = .ok) :
@@ -135,7 +150,7 @@ theorem doCloneLocked_ok {c : Cfg} {s : State} {sl : Slot} {ro : Bool}
       nsl.o.v.data = sl.o.v.data := by
   unfold doCloneLocked at h ⊢
   simp only [] at h ⊢
-  cases hn : (lockedResize c s.m PVec.empty sl.o.v.len).2 with
+  cases hn : (lockedResize c s.m PVec.empty (.locked, .rw) sl.o.v.len).2 with
   | none => simp [hn] at h
   | some nv =>
     have hs := lockedResize_some (v := PVec.empty) (by simp) hn
@@ -182,12 +197,13 @@ theorem opClone_ok {c : Cfg} {s : State} (h : Inv c s) {i : Nat} {sl : Slot}
     · exact locked false hok
     · simp at hok
 
-/-- **prefix law of the `resize` token** -/
+/-- **prefix law of the `resize` token** (any fill byte) -/
 theorem opResize_ok {c : Cfg} {s : State} (h : Inv c s) {i : Nat} {sl : Slot}
-    (hi : s.slots[i]? = some sl) (hg : sl.gone = false) {n : Nat} (hok : (opResize c s i n).1 = .ok) :
-    ∃ nsl : Slot, (opResize c s i n).2.slots = s.slots.set i nsl ∧ nsl.gone = false ∧
+    (hi : s.slots[i]? = some sl) (hg : sl.gone = false) {n : Nat} {b : UInt8}
+    (hok : (opResize c s i n b).1 = .ok) :
+    ∃ nsl : Slot, (opResize c s i n b).2.slots = s.slots.set i nsl ∧ nsl.gone = false ∧
       nsl.o.st = sl.o.st ∧ nsl.o.v.len = n ∧
-      nsl.o.v.data = sl.o.v.data.take n ++ zeros (n - sl.o.v.len) := by
+      nsl.o.v.data = sl.o.v.data.take n ++ List.replicate (n - sl.o.v.len) b := by
   have hb := inv_block h hi hg
   have h1 : sl.o.v.len ≤ sl.o.v.cap := hb.lenle
   have h2 : sl.o.v.buf.length = sl.o.v.cap := hb.buflen
@@ -197,11 +213,11 @@ theorem opResize_ok {c : Cfg} {s : State} (h : Inv c s) {i : Nat} {sl : Slot}
   · simp [ha] at hok
   simp only [ha] at hok ⊢
   have plain : ∀ st : St, ∃ nsl : Slot,
-      (setSlot s (vecResize c s.m sl.o.v n).1 i
-        { sl with o := ⟨st, (vecResize c s.m sl.o.v n).2⟩, rnd := sl.rnd && decide (0 < n) }).slots
+      (setSlot s (vecResize c s.m sl.o.v n b).1 i
+        { sl with o := ⟨st, (vecResize c s.m sl.o.v n b).2, sl.o.rcd⟩, rnd := sl.rnd && decide (0 < n) }).slots
         = s.slots.set i nsl ∧ nsl.gone = false ∧ nsl.o.st = st ∧ nsl.o.v.len = n ∧
-      nsl.o.v.data = sl.o.v.data.take n ++ zeros (n - sl.o.v.len) :=
-    fun st => ⟨_, rfl, hg, rfl, vecResize_len .., vecResize_data _ _ _ _ h1 h2⟩
+      nsl.o.v.data = sl.o.v.data.take n ++ List.replicate (n - sl.o.v.len) b :=
+    fun st => ⟨_, rfl, hg, rfl, vecResize_len c s.m sl.o.v n b, vecResize_data_fill _ _ _ _ _ h1 h2⟩
   cases hst : sl.o.st with
   | plain => simp only [hst] at hok ⊢; exact plain _
   | prot lm pm =>
@@ -210,7 +226,7 @@ theorem opResize_ok {c : Cfg} {s : State} (h : Inv c s) {i : Nat} {sl : Slot}
     · exact plain _
     · simp at hok
     · simp at hok
-    · cases hn : (lockedResize c s.m sl.o.v n).2 with
+    · cases hn : (lockedResize c s.m sl.o.v sl.o.rcd n b).2 with
       | none => simp [hn] at hok
       | some nv =>
         have hs := lockedResize_some (by omega) hn
